@@ -26,6 +26,8 @@ from cell_type_mapper.utils.multiprocessing_utils import (
 
 import cell_type_mapper.utils.distance_utils as distance_utils
 
+import cell_type_mapper.utils.verif_hooks as verif_hooks
+
 from cell_type_mapper.type_assignment.utils import (
     reconcile_taxonomy_and_markers)
 
@@ -248,6 +250,9 @@ def run_type_assignment_on_h5ad_cpu(
                     'output_lock': output_lock,
                     'results_output_path': buffer_dir})
         p.start()
+        verif_hooks.emit('Dispatch', chunk=chunk_index, r0=r0, r1=r1,
+                         worker_pid=p.pid, n_alive=len(process_list)+1,
+                         n_processors=n_processors)
         process_list.append(p)
         while len(process_list) >= n_processors:
             n0 = len(process_list)
@@ -298,6 +303,12 @@ def _run_type_assignment_on_h5ad_worker(
         output_lock,
         results_output_path=None):
 
+    if verif_hooks.on():
+        verif_hooks.emit('WStart', r0=r0, r1=r1, names=query_cell_names,
+                         rng_state=[str(rng.bit_generator.state['state'][k])
+                                    for k in ('state', 'inc')])
+        verif_hooks.gate('map.before', r0=r0)
+
     assignment = run_type_assignment(
         full_query_gene_data=query_cell_chunk,
         leaf_node_matrix=leaf_node_matrix,
@@ -311,6 +322,8 @@ def _run_type_assignment_on_h5ad_worker(
     for idx in range(len(assignment)):
         assignment[idx]['cell_id'] = query_cell_names[idx]
 
+    verif_hooks.gate('map.mid', r0=r0)
+
     if results_output_path:
         this_output_path = os.path.join(results_output_path,
                                         f"{r0}_{r1}_assignment.json")
@@ -318,6 +331,8 @@ def _run_type_assignment_on_h5ad_worker(
     else:
         with output_lock:
             output_list += assignment
+
+    verif_hooks.gate('map.after', r0=r0)
 
 
 def run_type_assignment(
@@ -454,6 +469,11 @@ def run_type_assignment(
                     node=parent_node[1])
             else:
                 possible_children = taxonomy_tree.children(None, None)
+
+            if verif_hooks.on():
+                verif_hooks.emit('Visit', parent=parent_node,
+                                 rows=chosen_idx,
+                                 n_children=len(possible_children))
 
             if len(possible_children) > 1:
                 t = time.time()
@@ -641,6 +661,14 @@ def _run_type_assignment(
         taxonomy_tree=taxonomy_tree,
         parent_node=parent_node)
     update_timer("assemble", t, timers)
+
+    if verif_hooks.on():
+        verif_hooks.emit('Genes', parent=parent_node,
+                         genes=query_data['query_data'].gene_identifiers,
+                         leaves=query_data['reference_data'].cell_identifiers,
+                         types=query_data['reference_types'],
+                         factor=bootstrap_factor,
+                         iterations=bootstrap_iteration)
 
     t = time.time()
     (result,
@@ -831,6 +859,8 @@ def tally_votes(
         t2 = time.time()
         chosen_idx = rng.choice(marker_idx, n_bootstrap, replace=False)
         chosen_idx = np.sort(chosen_idx)
+        if verif_hooks.on():
+            verif_hooks.emit('Draw', idx=chosen_idx, n=n_markers)
         bootstrap_query = query_gene_data[:, chosen_idx]
         bootstrap_reference = reference_gene_data[:, chosen_idx]
         update_timer("looppreproc", t2, timers)
